@@ -147,6 +147,8 @@ func Compose2(a, b *ref.Q) []*ref.Q {
 		{Kind: "boolean", Should: []*ref.Q{a}, Filter: []*ref.Q{b}},
 		{Kind: "boolean", Must: []*ref.Q{a}, Should: []*ref.Q{b}, MustNot: []*ref.Q{a}},
 		{Kind: "boolean", MustNot: []*ref.Q{b}},
+		{Kind: "boolean", Must: []*ref.Q{a}, Should: []*ref.Q{b, b}, ShouldMin: 1},
+		{Kind: "boolean", Must: []*ref.Q{a}, Should: []*ref.Q{b, a}, ShouldMin: 2},
 	}
 }
 
